@@ -468,11 +468,12 @@ func ruleWholeCommits(r *Report) {
 				return
 			}
 			if fr, isF := fieldOf(st.Addr); isF && fr.Struct == "column.Txn" && fr.Field == "updates" {
-				appOK = !edgeGuarded(ins.Block(), func(c ssa.Value) (bool, bool) {
+				// queued only on the edge where ReadFrom returned nil (and therefore after it)
+				appOK = len(rf) == 1 && edgeGuarded(ins.Block(), func(c ssa.Value) (bool, bool) {
 					x, nonNil, isN := nilTest(c)
 					if isN {
 						if cl, isEx := extractOf(norm(x), 1); isEx && cl == rf[0].(*ssa.Call) {
-							return true, nonNil
+							return true, !nonNil
 						}
 					}
 					return false, false
